@@ -587,9 +587,61 @@ class Inliner:
                         new = self._instantiate(fn, st.iter, bound, None)
                         target, body = st.target, st.body
 
+                        root = getattr(self, "_root", None)
+                        tnames = {n.id for n in ast.walk(target) if isinstance(n, ast.Name)}
+                        body_ids = {id(n) for b in body for n in ast.walk(b)}
+                        used_outside = root is None or any(isinstance(n, ast.Name) and n.id in tnames and id(n) not in body_ids
+                                                           and not any(n is x for x in ast.walk(target)) for n in ast.walk(root))
+                        rebinds = any(isinstance(n, ast.Name) and n.id in tnames and isinstance(n.ctx, (ast.Store, ast.Del)) for b in body for n in ast.walk(b))
+                        loads_in_body: Dict[str, int] = {}
+                        for b in body:
+                            for n in ast.walk(b):
+                                if isinstance(n, ast.Name) and isinstance(n.ctx, ast.Load) and n.id in tnames:
+                                    loads_in_body[n.id] = loads_in_body.get(n.id, 0) + 1
+
+                        def direct(val):
+                            """name -> expression when `target = val` can be read by writing the parts of a display into the body."""
+                            if used_outside or rebinds or not isinstance(target, (ast.Tuple, ast.List)) or not isinstance(val, (ast.Tuple, ast.List)):
+                                return None
+                            if any(isinstance(x, ast.Starred) for x in val.elts):
+                                return None
+                            ts = list(target.elts)
+                            stars = [i for i, t in enumerate(ts) if isinstance(t, ast.Starred)]
+                            if len(stars) > 1 or not all(isinstance(t.value if isinstance(t, ast.Starred) else t, ast.Name) for t in ts):
+                                return None
+                            if not stars and len(ts) != len(val.elts):
+                                return None
+                            if stars and len(val.elts) < len(ts) - 1:
+                                return None
+                            m: Dict[str, ast.expr] = {}
+                            if stars:
+                                k = stars[0]
+                                tail = len(ts) - k - 1
+                                for t, v in zip(ts[:k], val.elts[:k]):
+                                    m[t.id] = v
+                                m[ts[k].value.id] = ast.Tuple(elts=list(val.elts[k:len(val.elts) - tail]), ctx=ast.Load())
+                                for t, v in zip(ts[k + 1:], val.elts[len(val.elts) - tail:] if tail else []):
+                                    m[t.id] = v
+                            else:
+                                for t, v in zip(ts, val.elts):
+                                    m[t.id] = v
+                            for nm, v in m.items():
+                                simple = isinstance(v, (ast.Constant, ast.Name)) or (isinstance(v, ast.Attribute) and norm(v).count("(") == 0) \
+                                    or (isinstance(v, ast.Tuple) and loads_in_body.get(nm, 0) <= 1)
+                                if not simple and loads_in_body.get(nm, 0) > 1:
+                                    return None
+                            return m
+
                         class Y(ast.NodeTransformer):
                             def visit_Expr(self, node):
                                 if isinstance(node.value, ast.Yield) and node.value.value is not None:
+                                    m = direct(node.value.value)
+                                    if m is not None:
+                                        outb = []
+                                        for b in body:
+                                            nb = _Rename({k: copy.deepcopy(v) for k, v in m.items()}).visit(copy.deepcopy(b))
+                                            outb.append(_splice_starred_displays(nb))
+                                        return outb
                                     assign = ast.Assign(targets=[copy.deepcopy(target)], value=node.value.value)
                                     ast.copy_location(assign, node)
                                     return [assign] + [copy.deepcopy(b) for b in body]
@@ -803,10 +855,14 @@ def as_expression(fn: ast.FunctionDef) -> Optional[ast.expr]:
     def go(stmts: List[ast.stmt], env: Dict[str, ast.expr]) -> Optional[ast.expr]:
         env = dict(env)
         for i, st in enumerate(stmts):
-            if isinstance(st, ast.Expr) and isinstance(st.value, ast.Constant):
+            if isinstance(st, ast.Pass) or (isinstance(st, ast.Expr) and isinstance(st.value, ast.Constant)):
                 continue
             if isinstance(st, ast.Assign) and len(st.targets) == 1 and isinstance(st.targets[0], ast.Name):
                 env[st.targets[0].id] = subst(st.value, env)
+                continue
+            if isinstance(st, ast.AugAssign) and isinstance(st.target, ast.Name) and st.target.id in env:
+                # x |= e  after  x = e0:  x is (e0 | e)
+                env[st.target.id] = ast.BinOp(left=copy.deepcopy(env[st.target.id]), op=copy.deepcopy(st.op), right=subst(st.value, env))
                 continue
             if isinstance(st, ast.Assign) and len(st.targets) == 1 and isinstance(st.targets[0], (ast.Tuple, ast.List)) \
                     and len(st.targets[0].elts) == 1 and isinstance(st.targets[0].elts[0], ast.Name) and isinstance(st.value, ast.Call):
@@ -1147,7 +1203,17 @@ def unroll(fn: ast.FunctionDef, repo: Optional[Repo] = None, ci: Optional[ClassI
                             args.append(a)
                     node.args = args
                 return node
-        return _AttrConst().visit(X().visit(e))
+        class St(ast.NodeTransformer):
+            """`*(f(n) for n in range(4))` inside a display: the generated elements, spliced in."""
+            def visit_Starred(self, node):
+                node = self.generic_visit(node)
+                if isinstance(node.value, (ast.GeneratorExp, ast.ListComp)) and isinstance(node.ctx, ast.Load):
+                    lc = X().visit_ListComp(ast.copy_location(ast.ListComp(elt=node.value.elt, generators=node.value.generators), node.value))
+                    if isinstance(lc, (ast.List, ast.Tuple)):
+                        node.value = lc
+                return node
+        e = St().visit(e)
+        return _splice_starred_displays(_AttrConst().visit(X().visit(e)))
 
     stores: Dict[str, int] = {}
     for n0 in ast.walk(new):
@@ -1500,6 +1566,12 @@ def normalize(repo: Repo, ci: Optional[ClassInfo], fn: ast.FunctionDef, sf: Opti
     out = _flatten_only(repo, ci, fn, sf, **kw)
     if any(isinstance(n, ast.Call) and isinstance(n.func, ast.Call) and norm(n.func.func).split(".")[-1] in ("itemgetter", "attrgetter") for n in ast.walk(out)):
         out = desugar_getters(out)
+    if any(isinstance(n, ast.For) and isinstance(n.iter, (ast.Name, ast.GeneratorExp, ast.ListComp)) for n in ast.walk(out)) and \
+            any(isinstance(n, (ast.GeneratorExp, ast.ListComp)) for n in ast.walk(out)):
+        try:
+            out = desugar_genexp_loops(out)
+        except Exception:
+            pass
     if any(isinstance(n, ast.Attribute) and n.attr in ("pack", "unpack", "unpack_from") for n in ast.walk(out)):
         try:
             out = desugar_structs(repo, ci, sf, out)         # before unrolling: zip(FIELDS, CODEC.unpack(data)) is then recognised
@@ -1590,6 +1662,79 @@ def _splice_starred_displays(fn: ast.AST) -> ast.AST:
             node.args = self._splice(node.args)
             return node
     return S().visit(fn)
+
+
+def desugar_genexp_loops(fn: ast.FunctionDef) -> ast.FunctionDef:
+    """`for T in (E for T2 in ITER if C): BODY` reads as `for T2 in ITER: if C: T = E; BODY` — also when the generator expression
+    (or list comprehension) is first bound to a local that is bound once and read only by that loop, directly before it.
+    The loop body must not bind the comprehension's own variables differently (T2's names are new or equal to T's)."""
+    stores: Dict[str, int] = {}
+    loads: Dict[str, int] = {}
+    for n in ast.walk(fn):
+        if isinstance(n, ast.Name):
+            d = stores if isinstance(n.ctx, (ast.Store, ast.Del)) else loads
+            d[n.id] = d.get(n.id, 0) + 1
+
+    def rewrite(lp: ast.For, comp) -> Optional[ast.For]:
+        if len(comp.generators) != 1 or comp.generators[0].is_async or lp.orelse:
+            return None
+        g = comp.generators[0]
+        t2 = {n.id for n in ast.walk(g.target) if isinstance(n, ast.Name)}
+        t1 = {n.id for n in ast.walk(lp.target) if isinstance(n, ast.Name)}
+        same = norm(g.target) == norm(lp.target) and norm(comp.elt) == norm(g.target)
+        if not same:
+            # the comprehension's variables become loop locals: they must not be names the function uses elsewhere
+            body_names = {n.id for b in lp.body for n in ast.walk(b) if isinstance(n, ast.Name)}
+            if (t2 - t1) & body_names or any(stores.get(x, 0) for x in t2 - t1):
+                return None
+            if t2 & t1 and norm(comp.elt) != norm(g.target):
+                return None
+        body = list(lp.body)
+        if not same:
+            tgt = copy.deepcopy(lp.target)
+            body = [ast.Assign(targets=[tgt], value=copy.deepcopy(comp.elt))] + body
+        for c in reversed(g.ifs):
+            body = [ast.If(test=copy.deepcopy(c), body=body, orelse=[])]
+        t = copy.deepcopy(g.target)
+        for n in ast.walk(t):
+            if hasattr(n, "ctx"):
+                n.ctx = ast.Store()
+        new = ast.For(target=t, iter=copy.deepcopy(g.iter), body=body, orelse=[])
+        return ast.copy_location(new, lp)
+
+    def block(stmts: List[ast.stmt]) -> List[ast.stmt]:
+        out: List[ast.stmt] = []
+        i = 0
+        while i < len(stmts):
+            st = stmts[i]
+            nxt = stmts[i + 1] if i + 1 < len(stmts) else None
+            if isinstance(st, ast.Assign) and len(st.targets) == 1 and isinstance(st.targets[0], ast.Name) \
+                    and isinstance(st.value, (ast.GeneratorExp, ast.ListComp)) and isinstance(nxt, ast.For) and isinstance(nxt.iter, ast.Name) \
+                    and nxt.iter.id == st.targets[0].id and stores.get(nxt.iter.id) == 1 and loads.get(nxt.iter.id) == 1:
+                new = rewrite(nxt, st.value)
+                if new is not None:
+                    out.extend(block([new]))
+                    i += 2
+                    continue
+            if isinstance(st, ast.For) and isinstance(st.iter, (ast.GeneratorExp, ast.ListComp)):
+                new = rewrite(st, st.iter)
+                if new is not None:
+                    st = new
+            for fld in ("body", "orelse", "finalbody"):
+                sub = getattr(st, fld, None)
+                if isinstance(sub, list) and not isinstance(st, (ast.FunctionDef, ast.ClassDef)):
+                    setattr(st, fld, block(sub))
+            if isinstance(st, ast.Try):
+                for h in st.handlers:
+                    h.body = block(h.body)
+            out.append(st)
+            i += 1
+        return out
+    new_fn = copy.deepcopy(fn)
+    new_fn.body = block(new_fn.body)
+    ast.fix_missing_locations(new_fn)
+    number(new_fn)
+    return new_fn
 
 
 def desugar_getters(fn: ast.FunctionDef) -> ast.FunctionDef:
